@@ -4,10 +4,12 @@ import (
 	"fmt"
 	"os"
 	"os/exec"
+	"os/signal"
 	"path/filepath"
 	"regexp"
 	"strconv"
 	"strings"
+	"syscall"
 
 	"github.com/shutter-network/rolling-shutter/rolling-shutter/app"
 
@@ -116,6 +118,47 @@ func PersistChildMain(dir string) {
 	im.Do(&Op{Kind: "begin", Height: 99})
 	im.Do(&Op{Kind: "end", Height: 99})
 	im.App.PersistToDisk()
+	fmt.Fprintln(os.Stderr, "VERIF-THIRD-SAVE")
+	// a save that cannot be completed (the file system refuses to take more than a part of it: disk full, quota,
+	// file size limit) must leave the previous file in place and loadable
+	want := im.App.LastBlockHeight
+	st, err := os.Stat(im.App.Gobpath)
+	if err != nil {
+		return
+	}
+	verdict := "ok"
+	for _, cut := range []int64{0, 1, st.Size() / 2, st.Size() - 1} {
+		var old syscall.Rlimit
+		if err := syscall.Getrlimit(syscall.RLIMIT_FSIZE, &old); err != nil {
+			verdict = "skipped: " + err.Error()
+			break
+		}
+		signal.Ignore(syscall.SIGXFSZ)
+		lim := old
+		lim.Cur = uint64(cut)
+		if err := syscall.Setrlimit(syscall.RLIMIT_FSIZE, &lim); err != nil {
+			verdict = "skipped: " + err.Error()
+			break
+		}
+		im.Do(&Op{Kind: "begin", Height: 100 + cut})
+		im.Do(&Op{Kind: "end", Height: 100 + cut})
+		saveErr := im.App.PersistToDisk()
+		_ = syscall.Setrlimit(syscall.RLIMIT_FSIZE, &old)
+		loaded, lerr := app.LoadShutterAppFromFile(im.App.Gobpath)
+		switch {
+		case saveErr == nil:
+			// the limit did not bite (nothing to conclude); the file is the new one now
+			want = im.App.LastBlockHeight
+		case lerr != nil:
+			verdict = fmt.Sprintf("a save cut short after %d bytes (error %q) left a state file that does not load: %v", cut, saveErr, lerr)
+		case loaded.LastBlockHeight != want:
+			verdict = fmt.Sprintf("a save cut short after %d bytes (error %q) left a state file of height %d, the previous one had height %d", cut, saveErr, loaded.LastBlockHeight, want)
+		}
+		if verdict != "ok" {
+			break
+		}
+	}
+	_ = os.WriteFile(filepath.Join(dir, "failed-save-verdict"), []byte(verdict), 0o644)
 }
 
 var (
@@ -126,6 +169,7 @@ var (
 	reClose  = regexp.MustCompile(`close\((\d+)\s*\)\s*=\s*0`)
 	reUnlink = regexp.MustCompile(`unlink(?:at)?\((?:AT_FDCWD, )?"([^"]+)"(?:, [A-Z_0-9|]+)?\s*\)\s*=\s*0`)
 	reMark   = regexp.MustCompile(`write\(2, "VERIF-SECOND-SAVE`)
+	reMark3  = regexp.MustCompile(`write\(2, "VERIF-THIRD-SAVE`)
 )
 
 // observedSave runs a real save under strace and evaluates the crash-atomicity predicate (Lean,
@@ -175,6 +219,9 @@ func observedSave(cfg CheckConfig, res *hx.Result, dir string) error {
 				}
 			}
 		}
+		if reMark3.MatchString(line) {
+			break
+		}
 		if reMark.MatchString(line) {
 			second = true
 			continue
@@ -215,6 +262,15 @@ func observedSave(cfg CheckConfig, res *hx.Result, dir string) error {
 					fds[fd] = m[2]
 				}
 			}
+		}
+	}
+	if v, err := os.ReadFile(filepath.Join(sub, "failed-save-verdict")); err == nil {
+		res.Count("c13:failed-save-checked")
+		res.Extra["c13_failed_save"] = string(v)
+		if string(v) != "ok" && !strings.HasPrefix(string(v), "skipped") {
+			path := writeReplay(cfg, "C13-spec-failed-save.json", replayFile{Property: "C13", Kind: "spec", What: string(v)})
+			res.Violate(hx.Violation{Kind: "spec", Key: "save-not-atomic", What: string(v), Replay: path})
+			return nil
 		}
 	}
 	newSyms := written[final]
